@@ -110,6 +110,12 @@ CHECKS = {
         note="Trusts ast for the import inventory; the workload's observable result is the module-level RESULT value.",
         ref="DESIGN.md section 4 C16",
     ),
+    "C01": dict(
+        technique="explicit enumeration of call histories x function kinds x k x rewriter x CLI flag through the real trace -> SQLite -> decode -> shrink -> rewrite -> render pipeline; the stub text is evaluated with its own names and every recorded value judged by the conformance oracle (bounded exhaustive, E1+E4)",
+        text="Every depth-1 grammar value and every pair of representative values is bound to its own generated function (nine kinds: function, method, classmethod, generators with and without return value, coroutine that really suspends, truthfully annotated, alternating yields/returns); monkeytype.trace(config) records the real run into a SQLite file and `stub` is rendered for five size limits x seven rewriters x four CLI flags; each annotation is evaluated with the names the stub provides and every value really passed, returned or yielded at that position must be a member of it.",
+        note="Trusts member()/stubeval; generator and coroutine annotations are read at function level (yielded / returned / awaited values).",
+        ref="DESIGN.md section 4 C01",
+    ),
 }
 
 NOT_YET = {}
